@@ -74,7 +74,7 @@ def rmtree(d):
 
 # ---------------------------------------------------------------- Coq
 
-EXEC_MODELS = ["RtExec.vo", "IterExec.vo", "StructExec.vo", "CExec.vo"]
+EXEC_MODELS = ["RtExec.vo", "IterExec.vo", "StructExec.vo", "CExec.vo", "OptExec.vo"]
 
 
 def coq_build(targets=None):
